@@ -512,6 +512,12 @@ def ob_symbols(cfg):
 
 
 # ==========================================================================================================================
+def ob_const_inputs(cfg):
+    """no function writes through a parameter declared pointer / reference to const (checks/c20_const.py)"""
+    import c20_const
+    return c20_const.ob_const_inputs(mods_of(cfg))
+
+
 def include_in(chk):
     """statelessness is a premise of every per-call obligation of the other checks (each symbolic run starts from the load-time values of the
     globals and assumes that a call leaves nothing behind): the IR obligations for the shipped configuration, registered inside those checks"""
@@ -519,6 +525,7 @@ def include_in(chk):
     chk.add("ir:A:constructs", ob_constructs, "A")
     chk.add("ir:A:global-write-freedom", ob_writes, "A")
     chk.add("init:A:static-initialisers", ob_init, "A")
+    chk.add("ir:A:read-only-inputs", ob_const_inputs, "A")
 
 
 def main(argv=None):
@@ -528,6 +535,7 @@ def main(argv=None):
         chk.add("ir:%s:constructs" % cfg, ob_constructs, cfg)
         chk.add("ir:%s:global-write-freedom" % cfg, ob_writes, cfg)
         chk.add("init:%s:static-initialisers" % cfg, ob_init, cfg)
+        chk.add("ir:%s:read-only-inputs" % cfg, ob_const_inputs, cfg)
         chk.add("sym:%s:objects" % cfg, ob_symbols, cfg)
     chk.add("asm:x86_64:memory-operands", ob_asm)
     chk.explanation = (
